@@ -219,12 +219,20 @@ func TestC04(t *testing.T) {
 		}
 	}
 	// regression tier: the minimal schedule of a non-retryable failure found by the thorough tier
-	if p := joiningNodeKVWindow(); p != "" {
-		if len(p) > 13 && p[:13] == "precondition:" {
-			rec.Inconclusive("regression-schedule-precondition")
-			t.Logf("joining-node regression: %s", p)
+	for _, repair := range []bool{true, false} {
+		how := map[bool]string{true: "fixes fingers and looks up a key in (2<<44, 3<<44] through its finger 2<<44", false: "does not repair its fingers (they name 3<<44) and looks up a key in (2<<44, 3<<44]: no finger precedes it, the lookup walks via the successor pointer 2<<44"}[repair]
+		if p := joiningNodeKVWindow(repair); p != "" {
+			if len(p) > 13 && p[:13] == "precondition:" {
+				rec.Inconclusive("regression-schedule-precondition")
+				t.Logf("joining-node regression: %s", p)
+			} else {
+				rec.Fail(t, "kv-request-routed-to-joining-node-fails-non-retryably", map[string]any{"schedule": "ring {1<<44, 3<<44}; 2<<44 joins via 3<<44; the RequestToJoin response is held; 1<<44 stabilizes, " + how, "problem": p}, "%s", p)
+			}
 		} else {
-			rec.Fail(t, "kv-request-routed-to-joining-node-fails-non-retryably", map[string]any{"schedule": "ring {1<<44, 3<<44}; 2<<44 joins via 3<<44; the RequestToJoin response is held; 1<<44 stabilizes, fixes fingers and looks up a key in (2<<44, 3<<44] through its finger 2<<44", "problem": p}, "%s", p)
+			rp := repair
+			rec.Case(true, fmt.Sprintf("scenario:kv-request-reaches-joining-node:fingers-repaired=%v", rp), func() any {
+				return map[string]any{"scenario": "request routed to a node whose join has been granted but has not returned", "entry_node_repaired_its_fingers": rp}
+			}, "scenario:kv-request-reaches-joining-node")
 		}
 	}
 	ev.RapidCheck(t, 30, 1000, func(t *rapid.T) {
